@@ -9,8 +9,10 @@ def run(c):
               "ties, metric/group/namespace weights 1..1000 incl. unknown/zero, fair keys of length 0-3 with invalid indices, fixed per-metric "
               "budgets around the metric size, NoSampleAgent, rows with size<1, stale/missing MetricMeta), all 2^7 option combinations, "
               "budgets around sum(size)*{0.1,0.3,0.5,0.9,1,1.5} and sum-1; mode mix rand 80% (real selectRandom/roundSampleFactor), "
-              "det 10%, quota 10%. Every 8th case runs the REAL (*agent.Shard).sampleBucket on a bucket of ordinary, NoSampleAgent and "
-              "ingestion-status rows (counts are distinct powers of two so the factor of every sent row is exact; cases with a size/weight "
+              "det 10%, quota 10%. Every 8th case is a SEQUENCE of 2-4 sampler runs that hand their SamplerBuffers on "
+              "(as Aggregator.rowDataMarshalAppendPositions does between inserts), each with its own bucket; a decision about a row of an earlier "
+              "run is the oracle violation row-decided-in-later-run. Every 8th case runs the REAL (*agent.Shard).sampleBucket on a bucket of ordinary, NoSampleAgent and "
+              "ingestion-status rows (counts are powers of two so the factor of every sent row is exact, half of the rows hold exactly one event; cases with a size/weight "
               "tie between metrics are skipped) against SH.Sampler.agentBucket; every 16th case compares 20 random keys/rows with the models of "
               "Key.TLSizeEstimate, MultiItem.TLSizeEstimate, RowBinarySizeEstimate. Non-trivial = run in which at least one row was kept "
               "unconditionally and at least one row was sampled (handed to the selector or discarded) / agent case with bypassed and sampled "
@@ -45,7 +47,8 @@ def run(c):
 META = {
     "level": "proof",
     "technique": "Lean 4 theorems over an executable model of data_model/sampling.go (all buckets, budgets, options, draw streams and tie orders) + exact differential correspondence with the real sampler (observed draws) + direct oracle on the real selector",
-    "text": ("Kernel-checked: every row gets exactly one keep/discard decision (each_item_once, both code variants); the random selector "
+    "text": ("Kernel-checked: every row gets exactly one keep/discard decision (each_item_once, both code variants), also in a sequence of samplers sharing "
+             "SamplerBuffers, where each sampler decides exactly its own rows (each_item_once_seq, runShared_independent); the random selector "
              "decides row i by draw i only (selectRand_own_draw); every decision is 'kept with certainty, factor 1', 'kept iff own draw u "
              "satisfies u*sf<1, carrying that sf>1' or 'rejected by Add (size<1)' (kept_factor_is_inverse_probability, kept_factor_ge_one); "
              "factor x keep-probability lies in [1, 1+sf/2^53) so count/sum/sumsq keep their expectation (keep_iff_below_threshold, "
